@@ -5,7 +5,7 @@
    particular for [is_strictness_fulfilled s]; what that predicate means is the subject of
    [strictness_eval_sound].  [names_distinct]: the candidate set is a set (the table is indexed by model name). *)
 From Coq Require Import QArith ZArith List Bool PArith Arith Permutation Sorted Qround.
-From PV Require Import Base.PyData Base.Expr Base.Interp C19.Model C19.Spec C19.Penalty C19.Summary C19.Categorize C19.Proofs C19.Stats C19.StatsProofs C19.Stats2 C19.Stats2Proofs.
+From PV Require Import Base.PyData Base.Expr Base.Interp C19.Model C19.Spec C19.Penalty C19.Summary C19.Categorize C19.Proofs C19.Stats C19.StatsProofs C19.Stats2 C19.Stats2Proofs C19.Stats3 C19.Stats3Proofs.
 Import ListNotations.
 Local Open Scope nat_scope.
 
@@ -505,3 +505,30 @@ Theorem lrt_df_ignores_fixing :
     map p_name (c_params child) = map p_name (c_params child') ->
     degrees_of_freedom parent child = degrees_of_freedom parent child'.
 Proof. exact lrt_df_ignores_fix_lemma. Qed.
+
+
+(* ---- cdd delta OFV (Stats3.v: compute_delta_ofv and the dofv_influential flag) *)
+
+(* the delta OFV of a case-deleted run is the base model's OFV (sum of ALL individual OFVs) minus the share of the
+   skipped individuals minus the OFV of the case-deleted run — for every table of individual OFVs, every list of
+   skipped individuals (also ones the base results do not list), every OFV *)
+Theorem cdd_delta_ofv_def :
+  forall t skipped o d,
+    delta_ofv (Some t) skipped (Some o) = Some d ->
+    (d == qsum (map snd t) - qsum (map snd (filter (fun p => memid3 (fst p) skipped) t)) - o)%Q.
+Proof. exact delta_ofv_complement_lemma. Qed.
+(* it is NaN exactly when the base results have no individual OFVs or the case-deleted run has no results *)
+Theorem cdd_delta_ofv_nan_iff : forall iofv skipped o, delta_ofv iofv skipped o = None <-> iofv = None \/ o = None.
+Proof. exact delta_ofv_nan_lemma. Qed.
+(* one value per case-deleted run, in order *)
+Theorem cdd_delta_ofv_per_case :
+  forall iofv cases k skipped o,
+    nth_error cases k = Some (skipped, o) ->
+    nth_error (compute_delta_ofv iofv cases) k = Some (delta_ofv iofv skipped o).
+Proof. exact compute_delta_ofv_nth_lemma. Qed.
+(* nothing skipped: base OFV minus the run's OFV *)
+Theorem cdd_delta_ofv_nothing_skipped : forall t o, (kept_sum t [] - o == qsum (map snd t) - o)%Q.
+Proof. exact nothing_skipped_lemma. Qed.
+(* a case is flagged influential iff its delta OFV exceeds 3.86 (the double); NaN is never flagged *)
+Theorem cdd_influential_def : forall d x, d = Some x -> (dofv_influential d = true <-> (influence_limit < x)%Q).
+Proof. exact influential_lemma. Qed.
